@@ -59,6 +59,7 @@ type Exec struct {
 	callN        map[string]int
 	assertN      int
 	assertSeen   map[string]int
+	lastResult   map[string]Val
 }
 
 var defaultSafety = map[string]bool{"idx": true, "slice": true, "div0": true, "ovf": true, "make-neg": true, "assert-type": true}
